@@ -189,7 +189,41 @@ func runBU(cm map[string]any, res CaseResult, fail func(string, any, any, any) C
 			s.Extra = map[string]any{"type": "string"}
 		}
 	}
+	if f == "default" {
+		s.Type, s.Default = "integer", json.RawMessage(`"x"`)
+		opts.ValidateDefaults = true
+	}
 	conc := map[string]any{"field": f, "value": v}
+	if at, _ := cm["at"].(string); at != "" {
+		// the malformed node below the root, with subschemas after it in every walk order
+		conc["at"] = at
+		later := func() *jsonschema.Schema { return &jsonschema.Schema{Title: "later", Not: &jsonschema.Schema{}} }
+		root := &jsonschema.Schema{Not: later(), Properties: map[string]*jsonschema.Schema{"zz": later()}, Then: later(),
+			UnevaluatedProperties: later(), Defs: map[string]*jsonschema.Schema{"zz": later()}}
+		switch at {
+		case "allOf0":
+			root.AllOf = []*jsonschema.Schema{s, later()}
+		case "anyOf1":
+			root.AnyOf = []*jsonschema.Schema{later(), s, later()}
+		case "oneOf0":
+			root.OneOf = []*jsonschema.Schema{s}
+		case "prefixItems0":
+			root.PrefixItems = []*jsonschema.Schema{s, later()}
+		case "itemsArray0":
+			root.Schema = "http://json-schema.org/draft-07/schema#"
+			root.Defs, root.UnevaluatedProperties = nil, nil
+			root.ItemsArray = []*jsonschema.Schema{s, later()}
+		case "props":
+			root.Properties["a"] = s
+		case "defs":
+			root.Defs["a"] = s
+		case "items":
+			root.Items = s
+		case "notAllOf":
+			root.Not = &jsonschema.Schema{AllOf: []*jsonschema.Schema{later(), s}, Then: later()}
+		}
+		s = root
+	}
 	switch op {
 	case "marshal":
 		if _, err := json.Marshal(s); err == nil {
